@@ -4,12 +4,16 @@
 EXTENDS Naturals, Sequences, FiniteSets, SequencesExt, TLC, Json, IOUtils
 CONSTANTS MaxDistinct, MaxFreqC, MaxMerges
 Pool == {<<1>>, <<1, 2>>, <<1, 1, 1>>, <<1, 2, 1, 2>>, <<2, 1>>, <<2, 2, 1>>, <<1, 1, 1, 1>>, <<3, 1, 2>>}
-CasesOf(ws) ==
+\* alpha: the letters behind the slots - "abcd", or "nfkc" = ligature fi, i, fullwidth f, f (letters that NFKC rewrites):
+\* with norm = FALSE the corpus is counted as it is, with norm = TRUE in its NFKC form
+CasesOf(ws, alpha, norms) ==
     LET s == SetToSeq(ws) IN
     { [words |-> s, freqs |-> [k \in 1..Len(s) |-> f[k]], num_merges |-> m, per_line |-> pl, seed |-> 3,
-       threads |-> <<0, 1, 3>>, norm |-> TRUE] :
-         f \in [1..Len(s) -> 1..MaxFreqC], m \in 0..MaxMerges, pl \in {1, 2} }
-Cases == UNION {CasesOf(ws) : ws \in {w \in SUBSET Pool : Cardinality(w) \in 1..MaxDistinct}}
+       threads |-> <<0, 1, 3>>, norm |-> nm, alpha |-> alpha] :
+         f \in [1..Len(s) -> 1..MaxFreqC], m \in 0..MaxMerges, pl \in {1, 2}, nm \in norms }
+SmallPool == {<<1, 2>>, <<3, 2>>, <<1, 1>>, <<4, 2, 4, 2>>}
+Cases == UNION {CasesOf(ws, "abcd", {TRUE}) : ws \in {w \in SUBSET Pool : Cardinality(w) \in 1..MaxDistinct}}
+         \cup UNION {CasesOf(ws, "nfkc", BOOLEAN) : ws \in {w \in SUBSET SmallPool : Cardinality(w) \in 1..2}}
 VARIABLE x
 Init == x = 0 /\ ndJsonSerialize(IOEnv.OUT, SetToSeq(Cases))
 Next == UNCHANGED x
